@@ -904,7 +904,7 @@ func hostRealisable(id int, dom string) bool {
 func genDesc(r *hx.Rand, g *hx.Gen, id int, now int64, wantType, dom string) string {
 	nb, na := now-int64(r.Range(1, 90*86400)), now+int64(r.Range(1, 90*86400))
 	host, le, pub, priv, match := 1, 0, wantType, wantType, 1
-	switch r.Intn(16) {
+	switch r.Intn(24) {
 	case 0:
 		na = now - int64(r.Range(1, 1000))
 		g.Stat("cert.expired")
@@ -1014,7 +1014,7 @@ func genWorldAndCalls(g *hx.Gen, mode string) {
 		full, _ := unhexStr(ascii)
 		seen := map[string]bool{}
 		for _, k := range []struct{ key, typ string }{{dom, "ec"}, {dom + "+rsa", "rsa"}, {full + "+token", "ec"}, {dom + "+token", "rsa"}, {"other.example", "ec"}} {
-			if ascii == "err" || !r.Chance(3, 5) || seen[k.key] {
+			if ascii == "err" || !r.Chance(4, 5) || seen[k.key] {
 				continue
 			}
 			seen[k.key] = true
@@ -1040,7 +1040,7 @@ func genWorldAndCalls(g *hx.Gen, mode string) {
 	}
 	sb.WriteString(" state=-")
 	// CA
-	if r.Chance(1, 5) {
+	if r.Chance(1, 8) {
 		sb.WriteString(" ca=refuse")
 		g.Stat("ca.refuses-order")
 	} else {
@@ -1094,8 +1094,8 @@ func genWorldAndCalls(g *hx.Gen, mode string) {
 }
 
 func gen(g *hx.Gen) {
-	genNext(g, g.Count(12000, 1500000))
-	ngc := g.Count(400, 30000)
+	genNext(g, g.Count(10000, 1500000))
+	ngc := g.Count(320, 30000)
 	for i := 0; i < ngc; i++ {
 		switch i % 4 {
 		case 0, 1:
